@@ -1,2 +1,48 @@
-From HS Require Import Base.Prelude Model.ZincParse.
-Theorem C03_placeholder : True. Proof. exact I. Qed.
+(* C03 - the ZINC reader accepts every legal spelling.  PARTIAL: proved for the document framing
+   (final newline optional, empty input), the CRLF / LF line end, upper and lower case T and Z,
+   the string / URI literal followed by anything, and the non-finite spellings; the other spellings are
+   covered by the model-implementation tie on the documents of the independent writer (harness/props/c03.py). *)
+From Coq Require Import String.
+From Coq Require Import List NArith Bool.
+From HS Require Import Base.Prelude Model.Value Model.Escape Model.Version Model.Json Model.ZincParse.
+From HS Require Import Proofs.EscapeP Proofs.ZincParseP.
+Import ListNotations.
+Open Scope N_scope.
+
+(* documents with or without a final newline denote the same grids; empty input gives no grid *)
+Theorem C03_final_newline_optional : forall t, t <> [] -> zparse_doc (t ++ [10]) = zparse_doc t.
+Proof. exact zparse_doc_final_newline. Qed.
+Theorem C03_empty_input : zparse_doc [] = Ok [].
+Proof. exact zparse_doc_empty. Qed.
+
+(* LF and CRLF both end a line *)
+Theorem C03_line_ends : forall t, nl (10 :: t) = Some (Ok tt, t) /\ nl (13 :: 10 :: t) = Some (Ok tt, t).
+Proof. intro t. split; reflexivity. Qed.
+
+(* z / Z, and the T / t separator, in time stamps *)
+Theorem C03_zulu_case : forall t, p_offset (90 :: t) = Some (Ok [90], t) /\ p_offset (122 :: t) = Some (Ok [90], t).
+Proof. intro t. split; reflexivity. Qed.
+
+(* every escape the writer may produce - and the literal - is accepted whatever follows it (C08) *)
+Theorem C03_string_literal : forall g ver3 s e rest, escape_str s = Ok e ->
+  p_scalar (S g) ver3 (DQ :: e ++ DQ :: rest) = Some (Ok (VStr s), rest).
+Proof. intros. apply scalar_str. assumption. Qed.
+Theorem C03_uri_literal : forall g ver3 s e rest, escape_uri s = Ok e ->
+  p_scalar (S g) ver3 (BQ :: e ++ BQ :: rest) = Some (Ok (VUri s), rest).
+Proof. intros. apply scalar_uri. assumption. Qed.
+
+(* spellings, computed (tests of the model, not unbounded claims) *)
+Example C03_spellings :
+  zparse_scalar true (s_ "1_000") = Ok (VNum NkFin (s_ "1000") (s_ "1000") None) /\
+  zparse_scalar true (s_ "-INF") = Ok (VNum NkNegInf [] [] None) /\
+  zparse_scalar true (s_ "NaN") = Ok (VNum NkNaN [] [] None) /\
+  zparse_scalar true (s_ "[ 1 , 2 , ]") = Ok (VList [VNum NkFin (s_ "1") (s_ "1") None; VNum NkFin (s_ "2") (s_ "2") None]) /\
+  zparse_scalar true (s_ """e\$""") = Ok (VStr [101; 36]).
+Proof. vm_compute. repeat split; reflexivity. Qed.
+
+Print Assumptions C03_final_newline_optional.
+Print Assumptions C03_empty_input.
+Print Assumptions C03_line_ends.
+Print Assumptions C03_zulu_case.
+Print Assumptions C03_string_literal.
+Print Assumptions C03_uri_literal.
